@@ -105,7 +105,7 @@ pub fn ev_hp(sh: &mut Shards, rng: &mut Rng, data: &[u8]) {
     );
 }
 pub fn drive_hashes(a: &Args, w: &Words, thorough: bool) {
-    drive_hashes_scaled(a, w, "hash", if thorough { 20_000_000 } else { 150_000 })
+    drive_hashes_scaled(a, w, "hash", if thorough { 60_000_000 } else { 150_000 })
 }
 pub fn drive_hashes_scaled(a: &Args, w: &Words, prefix: &str, budget: usize) {
     let mut sh = Shards::new(&a.out, prefix, a.shards);
